@@ -1685,7 +1685,7 @@ SPEC_OPS = {"check"}      # `check` evaluates Spec/AhabRom.lean (hand-transcribe
 def run(ck):
     logging.disable(logging.CRITICAL)
     ck.spec_ops = set(SPEC_OPS)
-    ck.lean_obligations(generated=["PyFuns", "AhabConsts"])
+    ck.lean_obligations(generated=["PyFuns", "AhabConsts", "AhabVerifierRecs"])
     rows_l = crosscheck_generated(ck)
     drv = ck.driver()
     cx = Ctx()
@@ -1806,7 +1806,7 @@ def run(ck):
 def replay(ck, data):
     logging.disable(logging.CRITICAL)
     ck.spec_ops = set(SPEC_OPS)
-    ck.lean_obligations(generated=["PyFuns", "AhabConsts"])
+    ck.lean_obligations(generated=["PyFuns", "AhabConsts", "AhabVerifierRecs"])
     rows_l = crosscheck_generated(ck)
     cx = Ctx()
     cx.ck, cx.drv, cx.rows = ck, ck.driver(), {(r["family"], r["revision"]): r for r in rows_l}
